@@ -263,10 +263,9 @@ impl<'a> Dfs<'a> {
             let quots: Vec<usize> = (0..self.nfp).filter(|c| m2 & (1 << self.cls[*c]) != 0).map(|fp| fp >> self.r).collect();
             let (shifted, wraps) = layout(self.q, &quots);
             let nontrivial = (m2.count_ones() >= 3 && shifted) || full || wraps;
-            let key = hash64(&(self.q, self.r, &seq[..]));
             let (q, r) = (self.q, self.r);
             let s = &*seq;
-            acc.pass_light(nontrivial, key, || json!({"q": q, "r": r, "insert_fingerprints": s}));
+            acc.pass_enum(nontrivial, || json!({"q": q, "r": r, "insert_fingerprints": s}));
             if full {
                 acc.class("table_full");
             }
